@@ -858,7 +858,7 @@ def tie_chain_line(c):
     return None
 
 
-def tie_lines(c, ftoks):
+def tie_lines(c, ftoks, stats):
     """-> (list of alternative model ops, expectation suffix) or a string saying why the case is not tied.
     One alternative normally; two when "fell back to uncompressed chunks" cannot be told from the bytes alone."""
     api, out, data, check = c["api"], c["out"], c["data"], c["check"]
@@ -886,11 +886,14 @@ def tie_lines(c, ftoks):
         if api != "strm" and b["filters"] == [(L.LZMA2, b"\x00")] and payload == tie_uncompressed_chunks(piece):
             if cfg_is_min and api != "bue":
                 ambiguous = True
+                stats["fallback-or-not-ambiguous"] = stats.get("fallback-or-not-ambiguous", 0) + 1
             else:
                 tok = "!"
+                stats["fallback-blocks"] = stats.get("fallback-blocks", 0) + 1
         if seen.setdefault(piece, tok) != tok:
             return "same-piece-different-payload"
         pairs.append((hexs(piece), tok))
+        stats["blocks"] = stats.get("blocks", 0) + 1
         pos += b["hs"] + b["cs"] + (-b["cs"]) % 4 + csz
         dpos += b["us"]
     f = "%d %s" % (len(ftoks), " ".join(ftoks)) if ftoks else "0"
@@ -930,10 +933,10 @@ def run_tie(ctx, exe, mexe, cases, idxs):
         ctx.obligation_broken("harness c02 failed on a relchain op", str(fail[2])[:2000])
         return
     ftoks = {i: (o or "").split() for i, o in zip(chain_idx, c_out)}
-    ops, owner, expect = [], [], {}
+    ops, owner, expect, stats = [], [], {}, {}
     for i in idxs:
         c = cases[i]
-        r = tie_lines(c, ftoks.get(i, []))
+        r = tie_lines(c, ftoks.get(i, []), stats)
         if isinstance(r, str):
             ctx.count("tie-skipped:" + r)
             continue
@@ -942,6 +945,8 @@ def run_tie(ctx, exe, mexe, cases, idxs):
         for a in alts:
             ops.append(a)
             owner.append(i)
+    for k, v in sorted(stats.items()):
+        ctx.count("tie-" + k, v)
     m_out, mfail = run_parts(mexe, ops, [len(o) for o in ops])
     if mfail is not None:
         ctx.obligation_broken("model driver xzm_c02 failed on a container-encoder tie op", str(mfail[2])[:2000])
